@@ -428,3 +428,28 @@ pub fn search_friendly(p: &Pos) -> bool {
     p.b.iter().filter(|c| b"QRqr".contains(c)).count() <= 6 && p.pseudo().len() <= 250
 }
 pub const SKIP_HEAVY: &str = "more than 6 heavy pieces or 250 pseudo-legal moves (unbounded quiescence; see DESIGN)";
+
+/// Four-ply cycles a, b, a-back, b-back of quiet non-pawn moves that return to `p`
+pub fn shuffle_cycles(p: &Pos) -> Vec<[RMove; 4]> {
+    let quiet = |q: &Pos| -> Vec<RMove> { q.legal().into_iter().filter(|&m| !q.is_capture(m) && m.kind == K_NORMAL && m.promo == 0 && q.b[m.from as usize].to_ascii_lowercase() != b'p').collect() };
+    let mut out = Vec::new();
+    for a in quiet(p) {
+        let p1 = p.make(a);
+        for b in quiet(&p1) {
+            let p2 = p1.make(b);
+            let (ba, bb) = (RMove { from: a.to, to: a.from, promo: 0, kind: K_NORMAL }, RMove { from: b.to, to: b.from, promo: 0, kind: K_NORMAL });
+            if !p2.legal().contains(&ba) {
+                continue;
+            }
+            let p3 = p2.make(ba);
+            if p3.legal().contains(&bb) && p3.make(bb) == *p {
+                out.push([a, b, ba, bb]);
+                if out.len() >= 24 {
+                    return out;
+                }
+            }
+        }
+    }
+    out
+}
+
